@@ -175,6 +175,62 @@ def call(dec_kwargs, shape, value, ret, b_shape=None):
         return ("raise", type(e).__name__, str(e)[:120])
 
 
+def switch_histories(run, depth):
+    """all histories over {switch on, switch off, decorate a new function, call the first / the latest decorated
+    function with a conforming / violating argument}: a violating call raises exactly when checking is on at
+    the time of the call, whenever the function was decorated"""
+    from data_algebra.data_schema import SchemaCheckSwitch, SchemaRaises
+
+    sw = SchemaCheckSwitch()
+    events = ["on", "off", "decorate", "bad_first", "good_first", "bad_latest", "good_latest"]
+    count = 0
+    try:
+        for n_ev in range(1, depth + 1):
+            for hist in itertools.product(events, repeat=n_ev):
+                if hist[-1] not in ("bad_first", "bad_latest", "good_first", "good_latest") or "decorate" not in hist:
+                    continue  # only histories that end in an observation are judged
+                sw.on()
+                is_on = True
+                fns = []
+                verdict = None
+                for ev in hist:
+                    if ev == "on":
+                        sw.on()
+                        is_on = True
+                    elif ev == "off":
+                        sw.off()
+                        is_on = False
+                    elif ev == "decorate":
+
+                        def f(a):
+                            return "result"
+
+                        fns.append(SchemaRaises(arg_specs={"a": int})(f))
+                    else:
+                        if not fns:
+                            continue
+                        g = fns[0] if ev.endswith("first") else fns[-1]
+                        arg = "not an int" if ev.startswith("bad") else 3
+                        try:
+                            r = g(arg)
+                            got = "ok" if r == "result" else "wrong result"
+                        except TypeError:
+                            got = "raise"
+                        except Exception as e:
+                            got = "raise " + type(e).__name__
+                        want = "raise" if (ev.startswith("bad") and is_on) else "ok"
+                        count += 1
+                        if got != want and verdict is None:
+                            verdict = (ev, got, want)
+                run.outcome(("history", hist[-1], verdict is None))
+                if verdict is not None:
+                    run.violation({"kind": "switch_history", "history": list(hist), "event": verdict[0], "got": verdict[1], "expected": verdict[2]}, f"switch history {list(hist)}: {verdict[0]} gave {verdict[1]}, expected {verdict[2]} (checking follows the switch at the time of the call)")
+    finally:
+        sw.on()
+    run.set("switch_history_observations", count)
+    return count
+
+
 def run(tier):
     from data_algebra.data_schema import SchemaCheckSwitch
 
@@ -241,6 +297,7 @@ def run(tier):
                 judge("return", sn, vn, "positional", on, want, got, value)
     finally:
         sw.on()
+    n += switch_histories(run, 5 if tier == "quick" else 6)
     run.sample({"spec": "{1,'a'}", "value": 2, "expected": "returns (example values declare their types: {int,str})"})
     run.sample({"spec": "{'x': int}", "value": "pd x=[1.0,nan]", "expected": "raise (non-null float in an int column)"})
     run.set("evaluations", n)
@@ -253,7 +310,7 @@ def run(tier):
     ]
     return run.finish(
         exhaustive=True,
-        rule=f"{len(specs)} specifications (types, type sets, example values, sets of examples, column specs, two-column specs) x {len(values)} values (scalars, Pandas and Polars frames: conforming, wrong type, nulls, all-null, missing column, extra column, empty, non-frame) x call shapes (positional, keyword, omitted; second argument positional/keyword/omitted) x return specs x switch on/off",
+        rule=f"{len(specs)} specifications (types, type sets, example values, sets of examples, column specs, two-column specs) x {len(values)} values (scalars, Pandas and Polars frames: conforming, wrong type, nulls, all-null, missing column, extra column, empty, non-frame) x call shapes (positional, keyword, omitted; second argument positional/keyword/omitted) x return specs x switch on/off; plus all histories of length <= {5 if tier == 'quick' else 6} over switch on / off, decorate, call first / latest function with a conforming / violating argument",
     )
 
 
